@@ -304,6 +304,14 @@ theorem d3_order1 {L : Type} [Field L] [LinearOrder L] [IsStrictOrderedRing L]
 
 /-! ### non-vacuity -/
 example : parcorStableCoded ([2, -1] : List Rat) = false := by decide +kernel
+example : parcorStableSpec (fromPoles (3 : ℝ) [1/2, -3/4] [(0, 1/2), (3/5, 3/5)]) = true := by
+  rw [stable_eq_construction 3 (by norm_num)]
+  simp [polesInside]
+  norm_num
+example : parcorStableSpec (fromPoles (-2 : ℝ) [1/2] [(3/5, 4/5)]) = false := by
+  rw [stable_eq_construction (-2) (by norm_num)]
+  simp [polesInside]
+  norm_num
 example : polesInside ([1/2, -1] : List Rat) [] = false := by decide +kernel
 example : fromPoles (2 : Rat) [1/2, -1] [(3/5, 4/5)] = [2, -7/5, -1/5, 11/5, -1] := by decide +kernel
 example : levinson ([12, 6, 0, -3] : List Rat) 3 = some ([1, -5/8, 1/4, 1/8], 63/8, [-1/2, 1/3, 1/8]) := by
